@@ -12,8 +12,10 @@
 //                      total preorder, this decides the whole order on five-card hands;
 //                  (2) every 6/7-card hand must compare Equal to its own best five cards;
 //                  (3) random pairs of 5/6/7-card hands, pairs across adjacent categories.
-// known finding:   two non-straight flushes with the same top card and different lower cards compare
-//                  Equal -> class `flush-lower-cards-ignored`.  Everything else is a violation.
+// failure classes:  `flush-lower-cards-ignored` (two non-straight flushes with the same top card and
+//                  different lower cards compare Equal — repaired in /repo 2bb9547), `flush-fullhouse-order-swapped`
+//                  (repaired in 8321a88), `category-order-differs-from-rules`, `tie-break-differs-from-rules`,
+//                  `best-five-not-found`, `evaluator-panics`.  All are violations.
 use robopoker::cards::card::Card;
 use robopoker::cards::evaluator::Evaluator;
 use robopoker::cards::hand::Hand;
@@ -113,13 +115,15 @@ fn variant_index(r: Ranking) -> usize {
     mins.iter().filter(|m| **m <= r).count() - 1
 }
 struct Eng { s: Strength, idx: usize, r1: u8, r2: u8, kicks: u16, consistent: bool }
+// `consistent`: Strength::from(hand) is (find_ranking, kickers) with the kickers of a flush taken from
+// find_kickers_of_flush and all others from find_kickers (both public)
 fn engine(bits: u64) -> Option<Eng> {
     catch(move || {
         let hand = Hand::from(bits);
         let s = Strength::from(hand);
         let e = Evaluator::from(hand);
         let ranking = e.find_ranking();
-        let kickers = e.find_kickers(ranking);
+        let kickers = match ranking { Ranking::Flush(hi) => e.find_kickers_of_flush(hi), _ => e.find_kickers(ranking) };
         let (r1, r2) = fields(ranking);
         Eng { s, idx: variant_index(ranking), r1, r2, kicks: u16::from(s.kicks), consistent: Strength::from((ranking, kickers)) == s }
     })
@@ -293,7 +297,7 @@ fn main() {
     }
     run.count_n("pairs:random-and-near-value", n_pairs as u64);
     run.count_n("lines:cmp", cmp_lines);
-    // the listed witness of the known finding, always replayed (standard ranks exist in both decks)
+    // the witness of the repaired flush tie, always replayed (these ranks exist in both decks)
     {
         let h = |t: &str| u64::from(Hand::try_from(t).unwrap());
         let (wa, wb) = (h("As Ks Qs Js 9s"), h("Ah Kh Qh Jh 8h"));
